@@ -63,6 +63,34 @@ def gen_cases(ctx):
                     rng.shuffle(cs)
                     for thr in (10, 1):
                         cases.append(mk_case(kind, rand_params(rng, kind), n, list(ts), cs, rand_vec(rng, n, "generic"), thr))
+    # structured inputs: exact 2x2 unitaries of special shape (diagonal with U00 != 1, anti-diagonal, real), with and without a
+    # control, and vectors with exact zeros / purely real / purely imaginary amplitudes for every kind, on both paths
+    for params in structured_unitaries(rng):
+        for n in (2, 3):
+            pl = placements(n, "U2")
+            unc = [p for p in pl if not p[1]]; con = [p for p in pl if p[1]]
+            for (ts, cs) in (rng.choice(unc), rng.choice(con)):
+                thr = rng.choice([10, 1])
+                cases.append(mk_case("U2", params, n, list(ts), list(cs), rand_vec(rng, n, rng.choice(["generic", "axis"])), thr))
+    for kind in KINDS:
+        for n in (2, 3, 4):
+            pl = placements(n, kind)
+            if not pl: continue
+            for thr in (10, 1):
+                ts, cs = rng.choice(pl)
+                cases.append(mk_case(kind, rand_params(rng, kind), n, list(ts), list(cs), rand_vec(rng, n, "axis"), thr))
+    # the rayon path inside pools whose size is not a power of two (a result must not depend on the worker count)
+    for kind in KINDS:
+        for n in (4, 5, 6):
+            pl = placements(n, kind)
+            unc = [p for p in pl if not p[1]]
+            con = [p for p in pl if 1 <= len(p[1]) <= 2]
+            picks = (unc if n == 4 else [rng.choice(unc)] if unc else []) + ([rng.choice(con)] if con else [])
+            for ts, cs in picks:                       # n = 4: every uncontrolled placement (every target)
+                for pool in ((3, 5) if n == 4 else (rng.choice([3, 5, 6, 7]),)):
+                    c = mk_case(kind, rand_params(rng, kind), n, list(ts), list(cs), rand_vec(rng, n, "generic"), 1)
+                    c["pool"] = pool
+                    cases.append(c)
     real = [(9, 6), (10, 6)] if not ctx.thorough() else [(9, 20), (10, 20), (11, 10), (12, 6)]
     for n, cnt in real:
         for _ in range(cnt):
